@@ -4,7 +4,7 @@
    link atom, attribute replacement, and the last-writer-wins table of interactions keyed by
    (section, atoms, version).  The residue graph of each link (nodes = orders, edges) is an input
    (vermouth's make_residue_graph is a library contract). *)
-From Coq Require Import ZArith String List Bool.
+From Coq Require Import ZArith String Ascii List Bool DecimalString DecimalZ.
 Import ListNotations.
 Open Scope Z_scope.
 
@@ -100,9 +100,43 @@ Definition order_ok (g : meta) (mu : list (order * Z)) : bool :=
   all_pairs_ok (flat_map (fun p => match find_mnode (m_nodes g) (snd p) with
                                     | Some n => [(fst p, mn_resid n)] | None => [] end) mu).
 
+(* matches are applied sorted by key = sorted [(residue id, str(order))] (Python tuple / string order) *)
+Fixpoint repeat_str (c : string) (n : nat) : string := match n with O => EmptyString | S k => (c ++ repeat_str c k)%string end.
+Definition order_str (o : order) : string :=
+  match o with
+  | ONum n => NilZero.string_of_int (Z.to_int n)
+  | OArrow k => if 0 <? k then repeat_str ">" (Z.to_nat k) else repeat_str "<" (Z.to_nat (- k))
+  | OStar k => repeat_str "*" (Z.to_nat k)
+  end.
+Fixpoint str_leb (a b : string) : bool :=
+  match a, b with
+  | EmptyString, _ => true
+  | String _ _, EmptyString => false
+  | String x r, String y t => if Nat.ltb (nat_of_ascii x) (nat_of_ascii y) then true
+                              else if Nat.eqb (nat_of_ascii x) (nat_of_ascii y) then str_leb r t else false
+  end.
+Definition pair_leb (a b : Z * string) : bool :=
+  if fst a <? fst b then true else if fst a =? fst b then str_leb (snd a) (snd b) else false.
+Fixpoint key_leb (a b : list (Z * string)) : bool :=
+  match a, b with
+  | [], _ => true
+  | _ :: _, [] => false
+  | x :: r, y :: t => if pair_leb x y && negb (pair_leb y x) then true
+                      else if pair_leb x y && pair_leb y x then key_leb r t else false
+  end.
+Section Sort.
+  Context {A : Type} (leb : A -> A -> bool).
+  Fixpoint insert_sorted (x : A) (l : list A) : list A :=
+    match l with [] => [x] | y :: r => if leb x y then x :: l else y :: insert_sorted x r end.
+  Fixpoint isort_by (l : list A) : list A := match l with [] => [] | x :: r => insert_sorted x (isort_by r) end.
+End Sort.
+Definition match_key (g : meta) (mu : list (order * Z)) : list (Z * string) :=
+  isort_by pair_leb (map (fun p => (match find_mnode (m_nodes g) (snd p) with Some n => mn_resid n | None => 0 end, order_str (fst p))) mu).
+
 Definition residue_matches (g : meta) (l : link) : list (list (order * Z)) :=
-  filter (fun mu => induced_ok g l mu && order_ok g mu)
-         (assignments (l_res_nodes l) (map mn_key (m_nodes g))).
+  isort_by (fun a b => key_leb (match_key g a) (match_key g b))
+           (filter (fun mu => induced_ok g l mu && order_ok g mu)
+                   (assignments (l_res_nodes l) (map mn_key (m_nodes g)))).
 
 (* ---- atom-level matching ---- *)
 Definition atom_ok (la : latom) (a : ratom) : bool :=
